@@ -1553,6 +1553,8 @@ func (x *exec) applyContract(s *State, blk *Block, fn *ssa.Function, args []Valu
 	if relock {
 		x.afterRelockingCall(s, rmi, rowner, rk)
 	}
+	// closures passed to the callee may have been called by it
+	x.havocClosureCaptures(s, args)
 	var vals []Value
 	for i := 0; i < sig.Results().Len(); i++ {
 		vals = append(vals, e.fresh(sig.Results().At(i).Type(), "r:"+calleeShort(key), s))
